@@ -16,8 +16,16 @@ import (
 func main() {
 	req := readRequest()
 	format := parseFormat(req)
-	plugin := createPlugin(req)
-	generateOpenAPIFiles(plugin, format)
+	plugin, err := createPlugin(req)
+	if err != nil {
+		// A well-formed request protogen cannot handle (e.g. a file without go_package)
+		// is answered with an error message, not with a crash.
+		writeResponseMessage(&pluginpb.CodeGeneratorResponse{Error: proto.String(err.Error())})
+		return
+	}
+	if genErr := generateOpenAPIFiles(plugin, format); genErr != nil {
+		plugin.Error(genErr)
+	}
 	writeResponse(plugin)
 }
 
@@ -50,30 +58,35 @@ func parseFormat(req *pluginpb.CodeGeneratorRequest) openapiv3.OutputFormat {
 	return format
 }
 
-func createPlugin(req *pluginpb.CodeGeneratorRequest) *protogen.Plugin {
+func createPlugin(req *pluginpb.CodeGeneratorRequest) (*protogen.Plugin, error) {
 	opts := protogen.Options{}
-	plugin, err := opts.New(req)
-	if err != nil {
-		panic(err)
-	}
-	return plugin
+	return opts.New(req)
 }
 
-func generateOpenAPIFiles(plugin *protogen.Plugin, format openapiv3.OutputFormat) {
+func generateOpenAPIFiles(plugin *protogen.Plugin, format openapiv3.OutputFormat) error {
 	for _, file := range plugin.Files {
 		if !file.Generate {
 			continue
 		}
-		processFileServices(plugin, file, format)
+		if err := processFileServices(plugin, file, format); err != nil {
+			return err
+		}
 	}
+	return nil
 }
 
-func processFileServices(plugin *protogen.Plugin, file *protogen.File, format openapiv3.OutputFormat) {
+func processFileServices(plugin *protogen.Plugin, file *protogen.File, format openapiv3.OutputFormat) error {
 	for _, service := range file.Services {
 		generator := createServiceGenerator(file, service, format)
-		output := renderService(generator)
-		writeServiceFile(plugin, service, output, format)
+		output, err := renderService(generator)
+		if err != nil {
+			return fmt.Errorf("service %s: %w", service.Desc.Name(), err)
+		}
+		if err = writeServiceFile(plugin, service, output, format); err != nil {
+			return fmt.Errorf("service %s: %w", service.Desc.Name(), err)
+		}
 	}
+	return nil
 }
 
 func createServiceGenerator(
@@ -90,12 +103,8 @@ func createServiceGenerator(
 	return generator
 }
 
-func renderService(generator *openapiv3.Generator) []byte {
-	output, renderErr := generator.Render()
-	if renderErr != nil {
-		panic(renderErr)
-	}
-	return output
+func renderService(generator *openapiv3.Generator) ([]byte, error) {
+	return generator.Render()
 }
 
 func writeServiceFile(
@@ -103,7 +112,7 @@ func writeServiceFile(
 	service *protogen.Service,
 	output []byte,
 	format openapiv3.OutputFormat,
-) {
+) error {
 	ext := "yaml"
 	if format == openapiv3.FormatJSON {
 		ext = "json"
@@ -111,13 +120,15 @@ func writeServiceFile(
 	filename := fmt.Sprintf("%s.openapi.%s", service.Desc.Name(), ext)
 
 	generatedFile := plugin.NewGeneratedFile(filename, "")
-	if _, writeErr := generatedFile.Write(output); writeErr != nil {
-		panic(writeErr)
-	}
+	_, writeErr := generatedFile.Write(output)
+	return writeErr
 }
 
 func writeResponse(plugin *protogen.Plugin) {
-	resp := plugin.Response()
+	writeResponseMessage(plugin.Response())
+}
+
+func writeResponseMessage(resp *pluginpb.CodeGeneratorResponse) {
 	resp.SupportedFeatures = proto.Uint64(uint64(pluginpb.CodeGeneratorResponse_FEATURE_PROTO3_OPTIONAL))
 
 	respOutput, err := proto.Marshal(resp)
